@@ -5,6 +5,10 @@ props=[json.loads(l) for l in open('/verif/properties.jsonl')]
 ids=[p['id'] for p in props]
 TECH="bounded symbolic execution of the Go SSA of the real code (own engine gosym) with SMT-decided path conditions and assertions (z3 5.1 bit-vectors); counterexamples replayed natively"
 claimed={
+ "C17": dict(
+   text="Bounded symbolic model checking of parse -> semantic check -> dump.DumpIDL -> parse -> check on the real SSA (including the interpreted html.UnescapeString and the placeholder substitutions): for every literal body of the stated length (free ASCII bytes) at 12 positions and both quote kinds, for placeholder prefixes followed by free bytes, for integer/double/id spellings with free digits and for service shapes with free counts and flags, whenever the source is accepted the dumped text is accepted and its AST equals the original node by node (doubles by value).",
+   note="Bounds: one literal at a time, <=3 (thorough 4) free bytes; 2 free digits; <=2 arguments x <=3 throws. Five known findings of the dumper's quoting scheme are reported as KNOWN-FINDING inside narrow value regions (value contains backslash+quote, ##34;, #OUTQUOTES, '&' in a type annotation, a double quote in an include path); outside those regions every mismatch is a violation. DumpIDL_V1 (html/template) is outside.",
+   ref="6 C17"),
  "C12": dict(
    text="Bounded symbolic model checking of generator.FileManager.Feed/BuildResponse from go/ssa: for every history of 3 submissions (named file / named patch / unnamed patch in every combination, fed in one call or split at every position) with names, contents and insertion points as solver-enumerated choices and a FREE byte in every unnamed patch text, the output equals an in-harness reference model of the statement (each kept file once in submission order, patches at every occurrence of their point in submission order, no marker left, identical duplicates dropped with their patches, first holder keeps its name, unnamed patch without target is an error); a second harness feeds 2..3 plain files named from {a.go,a_1.go,a_2.go} and requires pairwise distinct output names.",
    note="The name/content/point dimension is a finite choice space enumerated through the solver (exhaustive within the stated alphabet); the solver's own contribution is the patch bytes. The insertion-point scan is a regexp call-out on concrete contents. Known finding KF-C12-rename-collides-with-submitted-name is reported as KNOWN-FINDING. Outside: longer histories, persistence to disk (C19).",
